@@ -21,6 +21,9 @@ class SourceModule(Object):
         self.mtime = getmtime(filename)
         self.declared_at = 1, 0
         self._analysing = False
+        self._checking = False
+        # source modules the analysis refers to -> the module object it saw (None: not found)
+        self._deps = {}  # type: dict[str, Object | None]
 
     def __repr__(self):
         # type: () -> str
@@ -29,13 +32,32 @@ class SourceModule(Object):
     @property
     def changed(self):
         # type: () -> bool
-        return self.mtime != getmtime(self.filename)
+        if self.mtime != getmtime(self.filename):
+            return True
+
+        # the analysis copies star-imported names and keeps references into the
+        # modules it imports: it is stale as soon as one of them was reloaded
+        if self._checking:  # import cycle
+            return False
+
+        self._checking = True
+        try:
+            for name, seen in iteritems(self._deps):
+                if self.project.get_source_module(name) is not seen:
+                    return True
+        finally:
+            self._checking = False
+
+        return False
 
     @cached_property
     def scope(self):
         # type: () -> SourceScope
         source = Source(open(self.filename).read(), self.filename)
         scope = extract_scope(source, self.project)
+        self._deps = {}
+        for name in scope.imported_modules():
+            self._deps[name] = self.project.get_source_module(name)
         return scope
 
     @property
